@@ -156,6 +156,39 @@ def run(ctx, w):
     ctx.extra["atoms"] = len(tb.atoms)
     ctx.extra["dispatchers"] = role
 
+    dispatch_rules(ctx, w, tb)
+
+    # the first-part accessor used for ps[k] really returns part 0
+    ctx.rule("T5a", "the accessor used for `parameter k` returns the parameter's first value")
+    accs = set()
+    for n in H.walk(w.hir(role["csi_dispatch"])["body"]):
+        if H.is_k(n, "mcall") and n.get("callee_local") and (w.facts.fns.get(n["callee"], {}).get("output") or {}).get("s") == "u16":
+            accs.add(n["callee"])
+    for acc in sorted(accs):
+        b = w.body(acc)
+        T = w.terms(acc)
+        rts = [T.local(0, (rb, b.n_stmts(rb))) for rb in b.return_blocks()]
+        ok = all(t[0] == "load" and len(t[1]) == 3 and t[1][0] == "arg1" and isinstance(t[1][2], tuple) and t[1][2][0] == "idx" and t[1][2][1] == ("const", 0)
+                 or (t[0] == "load" and len(t[1]) == 3 and t[1][2] == ("cidx", 0, False)) for t in rts)
+        ctx.check(ok, "T5a", acc, "%s does not return element 0 of the parameter's parts: %s" % (acc, [w.tstr(acc, t) for t in rts]),
+                  loc=w.fn_loc(acc), sample={"accessor": acc, "returns": [w.tstr(acc, t) for t in rts]})
+    ctx.floor("T5a", 1, "parameter accessors")
+
+    run_t7(ctx, w, tb)
+    capacity(ctx, w, tb)
+    # T8: parameter values are delivered as written up to 65535: the digit fold
+    # never drops a digit and cannot overflow the type it computes in (C01.R7)
+    from rules import c01, c08
+    c01.digits(ctx, w)
+    c08.decode_rules(ctx, w)
+    defaults_through_helper(ctx, w)
+
+
+
+def dispatch_rules(ctx, w, tb=None):
+    """T3-T6: every control, ESC and CSI sequence yields exactly the implemented function with the right parameter
+    slots (shared by the command-level properties: a command that is decoded wrongly cannot act rightly)."""
+    tb = tb or tables.parser_tables(w)
     # ---- T3 execute table, in every state that executes ---------------------------------
     ctx.rule("T3", "every C0/C1 control yields exactly the implemented function (or nothing), in every state that executes it")
     for st in tb.states:
@@ -248,30 +281,6 @@ def run(ctx, w):
         ctx.check(default is None, "T6", "%s/default" % nm, "unknown %s mode numbers decode to %r instead of being skipped" % (nm, default), loc=w.fn_loc(fn))
     ctx.floor("T6", 12, "mode numbers")
 
-    # the first-part accessor used for ps[k] really returns part 0
-    ctx.rule("T5a", "the accessor used for `parameter k` returns the parameter's first value")
-    accs = set()
-    for n in H.walk(w.hir(role["csi_dispatch"])["body"]):
-        if H.is_k(n, "mcall") and n.get("callee_local") and (w.facts.fns.get(n["callee"], {}).get("output") or {}).get("s") == "u16":
-            accs.add(n["callee"])
-    for acc in sorted(accs):
-        b = w.body(acc)
-        T = w.terms(acc)
-        rts = [T.local(0, (rb, b.n_stmts(rb))) for rb in b.return_blocks()]
-        ok = all(t[0] == "load" and len(t[1]) == 3 and t[1][0] == "arg1" and isinstance(t[1][2], tuple) and t[1][2][0] == "idx" and t[1][2][1] == ("const", 0)
-                 or (t[0] == "load" and len(t[1]) == 3 and t[1][2] == ("cidx", 0, False)) for t in rts)
-        ctx.check(ok, "T5a", acc, "%s does not return element 0 of the parameter's parts: %s" % (acc, [w.tstr(acc, t) for t in rts]),
-                  loc=w.fn_loc(acc), sample={"accessor": acc, "returns": [w.tstr(acc, t) for t in rts]})
-    ctx.floor("T5a", 1, "parameter accessors")
-
-    run_t7(ctx, w, tb)
-    capacity(ctx, w, tb)
-    # T8: parameter values are delivered as written up to 65535: the digit fold
-    # never drops a digit and cannot overflow the type it computes in (C01.R7)
-    from rules import c01, c08
-    c01.digits(ctx, w)
-    c08.decode_rules(ctx, w)
-    defaults_through_helper(ctx, w)
 
 
 def defaults_through_helper(ctx, w, rule="T10"):
